@@ -9,6 +9,9 @@ namespace C06
 
 def NTYPES : Nat := 3
 
+/-- the rule's action assigns something (a literal or an expression) -/
+def hasAssigns (r : Rule) : Bool := !(r.action.sets.isEmpty && r.action.xsets.isEmpty)
+
 /-- the views of working memory after a call (handle lists sorted ascending by the harness) -/
 structure View where
   get : List Nat                       -- handles h in 1..max+1 with `get(h).is_some()`
@@ -67,6 +70,7 @@ structure Ref where
   nextId : Nat := 1
   firedSince : List Nat := []              -- rules fired since the last reset
   fresh : List Nat := []                   -- handles inserted / updated since the last fire_all
+  freshTypes : List Nat := []              -- fact types touched (insert / successful update / successful retract) since the last fire_all
 deriving Repr, DecidableEq
 
 def Ref.has (r : Ref) (h : Nat) : Bool := r.live.any (·.1 == h)
@@ -104,7 +108,8 @@ def firingsBad (rules : List Rule) : List (Nat × Nat × Data) → List Nat → 
     | none, _ => "unknown_rule"
     | _, none => "retracted_never_fires"
 
-def quietRules (rules : List Rule) : Bool := rules.all (fun r => r.action.sets.isEmpty && !r.action.retract && r.noLoop)
+def quietRules (rules : List Rule) : Bool :=
+  rules.all (fun r => r.action.sets.isEmpty && !r.action.retract && r.noLoop && r.action.xsets.isEmpty)
 
 /-- rules the exactness clause expects to fire: no-loop, not fired since the last reset, satisfied by a live fact of
 their type -/
@@ -123,6 +128,14 @@ unfired rule on every live fact of its type) -/
 def exactAfterOk (rules : List Rule) (r : Ref) (names : List Nat) : Bool :=
   !(quietRules rules && !names.isEmpty) || (expectedRules rules r).all names.contains
 
+/-- **exactness, by type** (seeded change C06-13): insert, update and retract re-evaluate EVERY live fact of the touched type, so the
+clause applies as soon as the TYPE of every live fact was touched since the last fire_all — e.g. reset, then an update of one of
+two facts of a type to contents that no longer satisfy a rule the other fact still satisfies: the rule must fire (for the other). -/
+def exactTypeOk (rules : List Rule) (r : Ref) (names : List Nat) : Bool :=
+  !(quietRules rules && r.live.all (fun f => r.freshTypes.contains f.2.1)) || (expectedRules rules r).all names.contains
+
+def tyOfLive (r : Ref) (h : Nat) : List Nat := (r.live.filter (·.1 == h)).map (·.2.1)
+
 def setData (h : Nat) (d : Data) : List (Nat × Nat × Data) → List (Nat × Nat × Data)
   | [] => []
   | (k, ty, x) :: t => if k == h then (k, ty, d) :: t else (k, ty, x) :: setData h d t
@@ -132,13 +145,15 @@ def ostep (rules : List Rule) (r : Ref) (op : Op) (o : Obs) : Option Ref :=
   match op, o.res with
   | .insert ty d, .handle h =>
     -- handles_fresh: insert returns next_id (strictly increasing, never an earlier handle)
-    let r' := { r with live := r.live ++ [(h, ty, canonData d)], nextId := r.nextId + 1, fresh := r.fresh ++ [h] }
+    let r' := { r with live := r.live ++ [(h, ty, canonData d)], nextId := r.nextId + 1, fresh := r.fresh ++ [h],
+                       freshTypes := r.freshTypes ++ [ty] }
     if h == r.nextId && viewsOk r'.live o.view && contentsOk r'.live o.view then some r' else none
   | .update h d, .ok b =>
-    let r' := if b then { r with live := setData h (canonData d) r.live, fresh := r.fresh ++ [h] } else r
+    let r' := if b then { r with live := setData h (canonData d) r.live, fresh := r.fresh ++ [h],
+                                 freshTypes := r.freshTypes ++ tyOfLive r h } else r
     if b == r.has h && viewsOk r'.live o.view && contentsOk r'.live o.view then some r' else none
   | .retract h, .ok b =>
-    let r' := if b then { r with live := r.live.filter (·.1 != h) } else r
+    let r' := if b then { r with live := r.live.filter (·.1 != h), freshTypes := r.freshTypes ++ tyOfLive r h } else r
     if b == r.has h && viewsOk r'.live o.view && contentsOk r'.live o.view then some r' else none
   | .reset, .unit =>
     if viewsOk r.live o.view && contentsOk r.live o.view then some { r with firedSince := [] } else none
@@ -150,9 +165,9 @@ def ostep (rules : List Rule) (r : Ref) (op : Op) (o : Obs) : Option Ref :=
       -- contents after the run are taken from the view (write-back is order dependent); handles/types must be `L`
       let live' := o.view.contents
       if viewsOk L o.view && live'.map (fun f => (f.1, f.2.1)) == L.map (fun f => (f.1, f.2.1)) &&
-         (!(rules.all (fun rule => rule.action.sets.isEmpty)) || live' == L) && exactOk rules r names &&
-         exactAfterOk rules r names then
-        some { r with live := live', firedSince := fs, fresh := [] }
+         (!(rules.all (fun rule => !hasAssigns rule)) || live' == L) && exactOk rules r names &&
+         exactAfterOk rules r names && exactTypeOk rules r names then
+        some { r with live := live', firedSince := fs, fresh := [], freshTypes := [] }
       else none
   | _, _ => none
 
@@ -171,7 +186,7 @@ def namesOk (rules : List Rule) : List Nat → List Nat → Option (List Nat)
     | none => none
 
 /-- no action changes or retracts anything: working memory is the same before, during and after `fire_all` -/
-def inertRules (rules : List Rule) : Bool := rules.all (fun r => r.action.sets.isEmpty && !r.action.retract)
+def inertRules (rules : List Rule) : Bool := rules.all (fun r => !hasAssigns r && !r.action.retract)
 
 /-- "fires no other rule" when working memory cannot change during the call: every fired rule is satisfied by a live fact of
 its type -/
@@ -190,11 +205,11 @@ def ostepG (rules : List Rule) (r : Ref) (op : Op) (o : Obs) : Option Ref :=
       if viewsOk live' o.view &&
          live'.all (fun f => r.live.any (fun g => g.1 == f.1 && g.2.1 == f.2.1)) &&
          (rules.any (·.action.retract) || live'.map (·.1) == r.live.map (·.1)) &&
-         (!(rules.all (fun rule => rule.action.sets.isEmpty)) ||
+         (!(rules.all (fun rule => !hasAssigns rule)) ||
             live'.all (fun f => r.live.any (fun g => g == f))) &&
          (!inertRules rules || firedSatisfied rules r.live names) &&
-         exactOk rules r names && exactAfterOk rules r names then
-        some { r with live := live', firedSince := fs, fresh := [] }
+         exactOk rules r names && exactAfterOk rules r names && exactTypeOk rules r names then
+        some { r with live := live', firedSince := fs, fresh := [], freshTypes := [] }
       else none
   | .fire, _ => none
   | _, _ => ostep rules r op o
@@ -234,6 +249,34 @@ contents the closure saw plus its assignments — typed values, not their printe
 firing on the same handle saw, or, for the last firing of the call, against the view after the call. -/
 def applySets (d : Data) (sets : List (Nat × Val)) : Data := sets.foldl (fun d kv => d.set kv.1 kv.2) d
 
+/-- every field an expression reads is a field of type `ty` (then its value on a fact of that type depends on that fact alone) -/
+def Atom.localTo (ty : Nat) : Atom → Bool
+  | .fld t _ => t == ty
+  | _ => true
+
+def Expr.localTo (ty : Nat) (e : Expr) : Bool := e.head.localTo ty && e.tail.all (fun p => p.2.localTo ty)
+
+def Action.localTo (ty : Nat) (a : Action) : Bool := a.xsets.all (fun p => p.2.1.localTo ty)
+
+/-- **what a rule assigns when it fires on contents `d`**: the literal assignments, then every `T.f = <expr>` with the value the
+expression has on the contents at that moment (earlier assignments of the same firing included) -/
+def assignsOn (r : Rule) (d : Data) : List (Nat × Val) := r.action.resolve r.ty (fun _ => []) d
+
+/-- every expression HAS a value on the contents when its turn comes: all fields present, operands numeric (or two words for
+`+`), no division by zero, the result inside the modelled value domain.  (When it has none the code stores the expression's text
+— `evaluate_expression_for_rete`, "silently fallback" — which the model mirrors and the property does not speak about.) -/
+def definedX (ty : Nat) : Data → List (Nat × Expr × Nat) → Bool
+  | _, [] => true
+  | d, (f, e, sid) :: rest =>
+    let look := fun (t k : Nat) => if t == ty then d.get k else none
+    let xv := e.actXV look
+    xv != .err && xv != .inexact && xv.store sid != unmodelled && definedX ty (d.set f (xv.store sid)) rest
+
+def definedOn (r : Rule) (d : Data) : Bool := definedX r.ty (applySets d r.action.sets) r.action.xsets
+
+/-- the clause speaks about this firing: local expressions that all have a value -/
+def exprOk (r : Rule) (d : Data) : Bool := r.action.localTo r.ty && definedOn r d
+
 def writesOk (rules : List Rule) (final : List (Nat × Nat × Data)) : List (Nat × Nat × Data) → List Firing → Bool
   | _, [] => true
   | L, x :: xs =>
@@ -242,8 +285,8 @@ def writesOk (rules : List Rule) (final : List (Nat × Nat × Data)) : List (Nat
       let L' := if r.action.retract && ty == r.ty then L.filter (·.1 != x.handle) else L
       let sole := (L.filter (·.2.1 == ty)).length == 1
       let ok :=
-        if ty == r.ty && !r.action.retract && !r.action.sets.isEmpty && sole then
-          let E := canonData (applySets x.data r.action.sets)
+        if ty == r.ty && !r.action.retract && (hasAssigns r && exprOk r x.data) && sole then
+          let E := canonData (applySets x.data (assignsOn r x.data))
           match xs with
           | [] => (match final.find? (·.1 == x.handle) with | some (_, _, d) => canonData d == E | none => true)
           | y :: _ => y.handle != x.handle || canonData y.data == E
